@@ -3,6 +3,7 @@ package otto
 import (
 	"errors"
 	"math"
+	"math/big"
 	"net/url"
 	"regexp"
 	"strconv"
@@ -107,16 +108,13 @@ func builtinGlobalParseInt(call FunctionCall) Value {
 	value, err := strconv.ParseInt(input, radix, 64)
 	if err != nil {
 		if errors.Is(err, strconv.ErrRange) {
-			base := float64(base)
-			// Could just be a very large number (e.g. 0x8000000000000000)
-			var value float64
-			for _, chr := range input {
-				digit := float64(digitValue(chr))
-				if digit >= base {
-					return NaNValue()
-				}
-				value = value*base + digit
+			// Could just be a very large number (e.g. 0x8000000000000000):
+			// convert the exact integer, rounding once.
+			integer, ok := new(big.Int).SetString(input, radix)
+			if !ok {
+				return NaNValue()
 			}
+			value, _ := new(big.Float).SetInt(integer).Float64()
 			if negative {
 				value *= -1
 			}
@@ -124,8 +122,14 @@ func builtinGlobalParseInt(call FunctionCall) Value {
 		}
 		return NaNValue()
 	}
+	if value == 0 && negative {
+		return float64Value(math.Copysign(0, -1)) // sign * number is -0
+	}
 	if negative {
 		value *= -1
+	}
+	if value > 1<<53 || value < -(1<<53) {
+		return float64Value(float64(value)) // the Number value (binary64) for the integer
 	}
 
 	return int64Value(value)
